@@ -204,6 +204,19 @@ fn drain_outcomes() -> (std::collections::HashSet<u64>, u64, bool) {
 
 pub const N_AMBIENT: u64 = 6;
 
+/// Reads the capability word of the greeting of the tree under test (one throw-away connection)
+/// so that handshake variant 4 can mention exactly the bits the server did not offer.
+pub fn learn_unoffered_caps() {
+    static ONCE: std::sync::Once = std::sync::Once::new();
+    ONCE.call_once(|| {
+        let st = SimState::new(Arc::new(Vec::new()));
+        let o = run_conn(st, ConnCfg::new(Box::new(|_, _| Behavior::Silent)));
+        drain_outcomes();
+        let caps = crate::refwire::split_packets(&o.sim.out).ok().and_then(|p| p.first().map(|p| o.sim.out[p.start..p.start + p.len].to_vec())).and_then(|g| crate::refwire::parse_greeting(&g).ok()).map(|g| g.caps).unwrap_or(0);
+        crate::refwire::UNOFFERED_CAPS.store(!caps, std::sync::atomic::Ordering::Relaxed);
+    });
+}
+
 /// Run `f` with ambient environment variant `k` (see `apply_ambient`): every `run_conn` inside
 /// it talks to another kind of client over another kind of transport. Families whose own
 /// alphabet is something else (values, programs, histories) rotate this with the scenario index.
@@ -221,10 +234,10 @@ pub fn with_env<T>(k: u64, f: impl FnOnce() -> T) -> T {
 pub fn ambient_name(k: u64) -> &'static str {
     match k % N_AMBIENT {
         0 => "usual 4.1 handshake, whole reads and writes",
-        1 => "pre-4.1 handshake layout",
-        2 => "handshake with CLIENT_PROTOCOL_41 only; every transport write accepts 1 byte",
+        1 => "pre-4.1 handshake layout announcing max_packet_size 2048",
+        2 => "handshake with CLIENT_PROTOCOL_41 only, max_packet_size 3000; every transport write accepts 1 byte",
         3 => "libmysqlclient-style handshake (db, plugin, attributes); transport writes accept 7 bytes",
-        4 => "reads of at most 61 bytes; transport writes accept 4096 bytes",
+        4 => "handshake mentioning every capability the server did not offer, max_packet_size 65535; reads of at most 61 bytes; transport writes accept 4096 bytes",
         _ => "reads of at most 3 bytes; transport writes accept 1000 bytes",
     }
 }
@@ -237,7 +250,7 @@ fn apply_ambient(st: &mut SimState) {
         return;
     }
     let def = crate::refwire::default_handshake();
-    if (1..=3).contains(&k) && st.input.starts_with(&def) {
+    if (1..=4).contains(&k) && st.input.starts_with(&def) {
         let mut v = crate::refwire::handshake_variant(k).0;
         v.extend_from_slice(&st.input[def.len()..]);
         st.input = Arc::new(v);
@@ -442,6 +455,7 @@ pub fn tier_is_quick(tier: &str) -> bool {
 
 /// Run every scenario of every family. Returns the process exit code.
 pub fn drive(check: Check, tier: &str, seed: i64) -> i32 {
+    learn_unoffered_caps();
     let t0 = Instant::now();
     let mut total = Stats::default();
     let mut found: Vec<Found> = Vec::new();
@@ -703,6 +717,7 @@ pub fn drive(check: Check, tier: &str, seed: i64) -> i32 {
 
 /// Re-run exactly one scenario named by a replay artefact and print both sides.
 pub fn replay(check: Check, file: &str) -> i32 {
+    learn_unoffered_caps();
     let txt = std::fs::read_to_string(file).expect("cannot read replay file");
     let j: J = serde_json::from_str(&txt).expect("replay file is not JSON");
     let famname = j["family"].as_str().unwrap_or("");
